@@ -188,8 +188,8 @@ def part(ctx, proto, thorough):
     drv = codec.driver(ctx, proto)
     eldir = codec.elements_dir(ctx)
     exps = flowjobs.exporters(ctx.seed)
-    # (thorough: every second IPFIX history and every NetFlow v9 one - measured: the full set takes hours to judge)
-    stride = (2 if proto == "ipfix" else 1) if thorough else (6 if proto == "ipfix" else 2)
+    # (thorough: every fourth IPFIX history and every second NetFlow v9 one - measured: half of the full set took 90 minutes)
+    stride = (4 if proto == "ipfix" else 2) if thorough else (6 if proto == "ipfix" else 2)
     jobs, wants = [], []
     ins = ipfix_inserts() if proto == "ipfix" else v9_inserts()
     tbad = TBAD_MSG if proto == "ipfix" else TBAD_MSG_V9
@@ -199,7 +199,7 @@ def part(ctx, proto, thorough):
             continue
         jobs.append({"exp": exps[ci % len(exps)], "hist": [tgood, tbad] + c["hist"], "hdr": codec.enc_hdr(proto, c["hdr"]),
                      "sets": c["sets"], "inserts": ins, "truncate": True,
-                     "trunc_inserts": [len(ins) - 4, len(ins) - 3, len(ins) - 2, len(ins) - 1] if len(jobs) % (2 if thorough else 5) == 0 else [],
+                     "trunc_inserts": [len(ins) - 4, len(ins) - 3, len(ins) - 2, len(ins) - 1] if len(jobs) % (3 if thorough else 5) == 0 else [],
                      "pinserts": early_data(proto, c)})
         wants.append(len(c["want"]))
     # in portions: the observations of one portion (every insertion and every cut of every message) are judged and dropped
